@@ -49,6 +49,8 @@ def from_tag(t):
         return t[1]
     if k == "r":
         return t[1] / t[2]
+    if k == "f":
+        return float(t[1])
     if k == "l":
         return [from_tag(e) for e in t[1]]
     if k == "t":
